@@ -2,10 +2,28 @@
 from harness import cfg_common
 
 PROP = "C12"
+# hand-modelled functions of AgVerif.Cfg (read by tools/mkpins.py; same list as cfg_common.PINS)
+PINS = [("androguard/core/dex/__init__.py", "determineNext"),
+        ("androguard/core/dex/__init__.py", "determineException"),
+        ("androguard/core/dex/__init__.py", "DCode.get_ins_off"),
+        ("androguard/core/dex/__init__.py", "DCode.off_to_pos"),
+        ("androguard/core/dex/__init__.py", "DCode.set_instructions"),
+        ("androguard/core/dex/__init__.py", "DCode.get_instructions"),
+        ("androguard/core/dex/__init__.py", "EncodedMethod.get_instructions_idx"),
+        ("androguard/core/dex/__init__.py", "EncodedMethod.set_instructions"),
+        ("androguard/core/analysis/analysis.py", "MethodAnalysis._create_basic_block"),
+        ("androguard/core/analysis/analysis.py", "DEXBasicBlock.push"),
+        ("androguard/core/analysis/analysis.py", "DEXBasicBlock.set_childs"),
+        ("androguard/core/analysis/analysis.py", "DEXBasicBlock.set_fathers"),
+        ("androguard/core/analysis/analysis.py", "BasicBlocks.get_basic_block"),
+        ("androguard/core/analysis/analysis.py", "Exceptions.get_exception"),
+        ("androguard/core/analysis/analysis.py", "Exceptions.add"),
+        ("androguard/core/analysis/analysis.py", "ExceptionAnalysis.__init__")]
 
 
 def run(ck):
-    cfg_common.run(ck, PROP)
+    assert sorted(PINS) == sorted(cfg_common.PINS)
+    cfg_common.run(ck, PROP, PINS)
 
 
 def replay(ck, rp):
